@@ -482,6 +482,24 @@ ROUND8 = {
 }
 for _k, _v in ROUND8.items():
     CLAIMS[_k]["text"] += " " + _v
+ROUND9 = {
+ "C01": "No local array is read after it has been wiped; the CRC32C tables are filled before use in the host configuration and in the one without CPU features.",
+ "C02": "Called in place, every output write follows the read of the input it replaces.",
+ "C03": "The CRC32C tables are filled before use in both configurations; the portable AES-CTR loop reads each input byte before writing the output that replaces it.",
+ "C04": "The timer's record holds a copy of the timeout, not the caller's pointer.",
+ "C08": "The header block is parsed only where its terminator was seen (relational); every window byte a handler looks at has arrived.",
+ "C09": "Every window byte a handler looks at has arrived; a resize on the way to the callback asks for at least one byte.",
+ "C11": "generate makes exactly ceil(buflen / 32) HMAC steps, each followed by a copy of min(32, rest) bytes to its place (relational, ghost step count).",
+ "C14": "The answer of a callee that can fail for lack of memory is not thrown away in a function that can report failure.",
+ "C15": "A counted read from a NUL-terminated string takes its count from that string's length; a negative numeral is not accepted into an unsigned target.",
+ "C16": "errno is cleared before each conversion it is tested after.",
+ "C17": "Each address printer converts with its own family.",
+ "C18": "A pack of single-character options is given up only at its terminator or to an option that takes the rest as its argument.",
+ "C19": "No assertion contains a libc call with effects.",
+ "C20": "Every heap copy of a key-file line's value is wiped before release unless the line is known to be the key id's.",
+}
+for _k, _v in ROUND9.items():
+    CLAIMS[_k]["text"] += " " + _v
 for _k in CLAIMS:
     CLAIMS[_k]["text"] += " Differentially: a function that failed only when a callee failed still does."
 
